@@ -392,22 +392,29 @@ def project_strategy():
     @st.composite
     def project(draw):
         nmods = draw(st.integers(1, 3))
-        layout = draw(st.sampled_from(["flat", "pkg", "pkg", "sub"]))
+        layout = draw(st.sampled_from(["flat", "pkg", "pkg", "sub", "deep"]))
         placements = []
         for i in range(nmods):
             if layout == "flat":
                 placements.append("")
             elif layout == "pkg":
                 placements.append(draw(st.sampled_from(["", "pk", "pk"])))
-            else:
+            elif layout == "sub":
                 placements.append(draw(st.sampled_from(["", "pk", "pk/sub", "pk/sub"])))
+            else:
+                # three package levels: relative imports with three leading dots become possible
+                placements.append(draw(st.sampled_from(["pk", "pk/sub", "pk/sub/low", "pk/sub/low"])) if i else "pk")
         if layout != "flat" and not any(placements):
             placements[0] = "pk"
         files = []      # (relpath, kind)
         for i, d in enumerate(placements):
             files.append(((d + "/" if d else "") + MODNAMES[i] + ".py", "mod"))
-        dirs = sorted({d for d in placements if d} | ({"pk"} if any(p.startswith("pk/") for p in placements) else set()),
-                      key=lambda d: -len(d))
+        dirs = set()
+        for d in placements:
+            parts = d.split("/") if d else []
+            for k in range(1, len(parts) + 1):
+                dirs.add("/".join(parts[:k]))
+        dirs = sorted(dirs, key=lambda d: (-len(d), d))
         inits = draw(st.booleans()) or True
         for d in dirs:
             files.append((d + "/__init__.py", "init"))
@@ -433,6 +440,13 @@ def project_strategy():
             in_pkg = package_of(rel)
             form = draw(st.sampled_from(["import", "import-as", "from", "from", "from-as", "from-as", "star",
                                          "from-mod", "from-mod-as", "missing", "rel", "rel-mod"]))
+            if layout == "deep" and in_pkg.count(".") >= 2:
+                # importer three packages deep: mostly explicit relative imports (two or three leading dots)
+                form = draw(st.sampled_from(["rel", "rel", "rel-mod", form]))
+                shallow = [e for e in earlier if not e.endswith("__init__.py") and package_of(e) in ("pk", "pk.sub")]
+                if shallow and draw(st.booleans()):
+                    tgt = draw(st.sampled_from(shallow))
+                    dotted = dotted_of(tgt)
             alias = draw(name_st)
             names = sorted(self_names.get(tgt, [])) or ["x"]
             nm = draw(st.sampled_from(names))
@@ -710,4 +724,6 @@ def labels(pr):
         out.add("pymulti:layout:package")
     if any(rel.count("/") >= 2 for rel in pr.sources):
         out.add("pymulti:layout:sub-package")
+    if any(rel.count("/") >= 3 for rel in pr.sources):
+        out.add("pymulti:layout:three-package-levels")
     return out, nontrivial
